@@ -25,6 +25,13 @@ Theorem C32_id_order : forall e1 l1 t1 e2 l2 t2,
   lex_compare (event_id e1 l1 t1) (event_id e2 l2 t2) = triple_compare (e1, l1, t1) (e2, l2, t2).
 Proof. exact event_id_order. Qed.
 
+(* for every sequence of SetEpoch / SetLamport / SetID / Build calls on one builder, every id
+   produced carries the epoch and Lamport time current at that call *)
+Theorem C32_builder_ids : forall b ops,
+  b_epoch b < pow256 4 -> b_lamport b < pow256 4 -> bops_ok ops ->
+  map (fun id => (id_epoch id, id_lamport id)) (brun b ops) = bspec (b_epoch b) (b_lamport b) ops.
+Proof. exact brun_carries. Qed.
+
 (* non-vacuity: the bounds are the ranges of uint16/32/64 *)
 Example C32_ranges : pow256 2 = 65536 /\ pow256 4 = 4294967296 /\ pow256 8 = 18446744073709551616.
 Proof. repeat split; vm_compute; reflexivity. Qed.
@@ -37,3 +44,4 @@ Print Assumptions C32_be_order.
 Print Assumptions C32_id_epoch.
 Print Assumptions C32_id_lamport.
 Print Assumptions C32_id_order.
+Print Assumptions C32_builder_ids.
